@@ -164,6 +164,11 @@ class Eval:
             except OverflowError:
                 raise NoValue('overflow')
             return f2b(w, r)
+        if op == 'frem':
+            x, y = b2f(w, self.v(a[0])), b2f(w, self.v(a[1]))
+            if y == 0 or x != x or y != y or x in (math.inf, -math.inf):
+                raise NoValue('fmod outside its domain')
+            return f2b(w, math.fmod(x, y))
         if op == 'fneg':
             return self.v(a[0]) ^ (1 << (w - 1))
         if op == 'fabs':
